@@ -9,7 +9,8 @@ test -f /opt/veriftools/tla/tla2tools.jar || { echo "tla2tools.jar missing"; exi
 fail=0
 cd spec
 for f in *.tla; do
-  if ! java -cp /opt/veriftools/tla/tla2tools.jar:/opt/veriftools/tla/CommunityModules-deps.jar tla2sany.SANY "$f" >../out/sany.log 2>&1; then
+  if ! java -cp /opt/veriftools/tla/tla2tools.jar:/opt/veriftools/tla/CommunityModules-deps.jar tla2sany.SANY "$f" >../out/sany.log 2>&1 \
+     || grep -qE "Semantic errors|\*\*\* Errors|Fatal errors|Parse Error|Could not (find|parse)" ../out/sany.log; then
     echo "SANY failed on $f"; tail -20 ../out/sany.log; fail=1
   fi
 done
